@@ -121,11 +121,25 @@ pub fn tc(c: &Value) -> Value {
     let sql = c["sql"].as_str().unwrap();
     let d = dialect_by_name(c["dialect"].as_str().unwrap());
     let off = parse_with(d.as_ref(), sql, Some(false), None);
+    // where did the parser itself end a comma-separated list (hook in parse_comma_separated; lists of
+    // abandoned maybe_parse attempts are dropped)?  Only those places are list ends in the sense of the property.
+    sqlparser::parser::verif_hooks::reset();
     let on = parse_with(d.as_ref(), sql, Some(true), None);
+    let list_ends: Vec<usize> = sqlparser::parser::verif_hooks::list_ends();
     let toks = match tokenize_loc(d.as_ref(), sql, true) {
         Ok(t) => t,
         Err(_) => return json!({"status":"skip"}),
     };
+    // a recorded index points at the token after the last element (often whitespace): the list end is in front
+    // of the next non-whitespace token
+    let mut end_before: std::collections::BTreeSet<usize> = std::collections::BTreeSet::new();
+    for &i in &list_ends {
+        let mut k = i;
+        while k < toks.len() && is_ws(&toks[k].token) {
+            k += 1;
+        }
+        end_before.insert(k);
+    }
     let offs = token_offsets(sql, &toks);
     let bytes = char_offsets(sql);
     let nws: Vec<(usize, &TokenWithLocation)> = toks.iter().enumerate().filter(|(_, t)| !is_ws(&t.token)).collect();
@@ -164,9 +178,11 @@ pub fn tc(c: &Value) -> Value {
     let mut prev_word: String = String::new();
     let mut clause: Vec<String> = vec!["top".into()];
     let end_off = offs[offs.len() - 1];
+    // character offsets in front of which a parser-level list ended (the end of the text counts when a list ended there)
+    let ends_at: std::collections::BTreeSet<usize> = end_before.iter().map(|&k| if k < toks.len() { offs[k] } else { end_off }).collect();
     let handle_term = |stack: &Vec<Frame>, clause: &Vec<String>, at: usize, prev: Option<&Token>, cands: &mut Vec<(usize, String)>, closing: bool| {
         let f = stack.last().unwrap();
-        if f.commas > 0 && f.elem_ok {
+        if f.commas > 0 && f.elem_ok && ends_at.contains(&at) {
             if let Some(p) = prev {
                 if *p != Token::Comma && !matches!(p, Token::LParen | Token::LBracket | Token::LBrace | Token::Colon | Token::Period | Token::DoubleColon) {
                     let ctx = if closing && clause.last().map(|s| s == "(").unwrap_or(false) { f.ctx.clone() } else { format!("{}", clause.last().unwrap()) };
